@@ -255,6 +255,17 @@ class ReplacementPatternFunction:
         )
 
 
+def _is_output_of(value: ir.Value, nodes: Sequence[ir.Node]) -> bool:
+    """Whether the value is produced by one of the nodes."""
+    producer = value.producer()
+    return producer is not None and any(producer is node for node in nodes)
+
+
+def _has_fixed_name(value: ir.Value) -> bool:
+    """Whether the name of the value is part of an interface and must not change."""
+    return value.is_graph_input() or value.is_initializer() or value.is_graph_output()
+
+
 def _update_opset_imports(
     graph_or_function: ir.Graph | ir.Function, delta: ReplacementSubgraph
 ):
@@ -374,6 +385,33 @@ class RewriteRule(Pattern):
                 for value in new_node.inputs:
                     if value is not None and value.producer() in removed_nodes:
                         return None
+        # A replacement output may be a value that exists already, typically a pattern input
+        # (Identity(x) -> x). Splicing gives a replacement output the name, type and shape of the
+        # pattern output it replaces; an existing value must keep its own (x may be a graph input).
+        new_nodes = list(replacement_subgraph.new_nodes)
+        new_outputs = list(replacement_subgraph.new_outputs)
+        for i, (old_value, new_value) in enumerate(zip(match.outputs, new_outputs)):
+            if _is_output_of(new_value, new_nodes):
+                continue
+            if self.remove_nodes and new_value.producer() in set(match.nodes):
+                # The value returned is computed by a node that is about to be removed.
+                return None
+            if old_value.is_graph_output() and _has_fixed_name(new_value):
+                # Both names are part of an interface: a node has to stay between them.
+                if (
+                    len(match.nodes) == 1
+                    and node.op_type == "Identity"
+                    and node.domain in ("", "ai.onnx")
+                    and node.inputs[0] is new_value
+                ):
+                    # The matched node is that node already.
+                    return None
+                forward = ir.Node("", "Identity", [new_value])
+                new_nodes.append(forward)
+                new_outputs[i] = forward.outputs[0]
+                replacement_subgraph.used_opsets.add(("", None))
+        replacement_subgraph.new_nodes = new_nodes
+        replacement_subgraph.new_outputs = new_outputs
         # TODO(rama): Remove the opset imports from deleted nodes?
         _update_opset_imports(graph_or_function, replacement_subgraph)
         _update_opset_imports(model.graph, replacement_subgraph)
@@ -836,13 +874,24 @@ class RewriteRuleSet:
                     for n in delta.new_nodes:
                         n.metadata_props[RULE_NAME_TAG] = rule.name
 
+                old_values = []
+                new_values = []
+                for old_value, new_value in zip(delta.match.outputs, delta.new_outputs):
+                    if not _is_output_of(new_value, delta.new_nodes) and (
+                        not old_value.is_graph_output()
+                    ):
+                        # An existing value takes over the uses and keeps its name, type and shape.
+                        convenience.replace_all_uses_with(old_value, new_value)
+                        continue
+                    old_values.append(old_value)
+                    new_values.append(new_value)
                 convenience.replace_nodes_and_values(
                     graph_or_function,
                     node,
                     delta.match.nodes if rule.remove_nodes else [],
                     delta.new_nodes,
-                    delta.match.outputs,
-                    delta.new_outputs,
+                    old_values,
+                    new_values,
                 )
 
                 if merge_metadata:
